@@ -304,7 +304,8 @@ Section Builtin.
              cbn [skipn] in E1. rewrite E1. exists sf. eexists. split; [reflexivity|]. split; auto.
       + apply Nat.leb_gt in Hh. cbv beta iota zeta in W.
         destruct (forallb (forallb enc) row) eqn:Enc; injection W as <- <- <-; cbn [accepted_of].
-        2:{ destruct (IH _ _ _ R s Inv) as [sf [evs [E1 E2]]]; cbn; auto. cbn in E1. eauto. }
+        2:{ match type of R with context [if ?b then _ else _] => destruct b end;
+              (destruct (IH _ _ _ R s Inv) as [sf [evs [E1 E2]]]; cbn; auto; cbn in E1; eauto). }
         replace (c_header c - l_line (w_loc w)) with (S (c_header c - S (l_line (w_loc w)))) by lia.
         rewrite skipn_S_cons. cbn [run_rows]. unfold step.
         assert (Nat.ltb (c_header c) (rs_count s) = false) as -> by (apply Nat.ltb_ge; lia). cbv beta iota zeta.
